@@ -293,10 +293,10 @@ impl Selector {
                         assert(attrs@ == attrs_of(*node)); //@w
                         for attr in it: attrs.iter()
                             invariant //@w
-                                comps@.len() >= 1, comps@[0] == *comp, *comp == SelectorComponent::Class(*class), node_ok(*node), is_elem(*node), //@w
-                                same_seq(it.seq(), attrs@), attrs@ == attrs_of(*node), //@w
-                                forall|n: Handle| #[trigger] m(comps@.skip(1), 0, n) == m(comps@, 1, n), //@w
-                                forall|i: int, j: int| 0 <= i < it.index@ && local_name(#[trigger] attrs@[i].name) == "class"@ && 0 <= j < ws_tokens(tendril_str(attrs@[i].value)).len() ==> #[trigger] ws_tokens(tendril_str(attrs@[i].value))[j] != class@, //@w
+                                comps@.len() >= 1, comps@[0] == *comp, *comp == SelectorComponent::Class(*class), node_ok(*node), is_elem(*node), //@w @C20 #do_matches_loop_invariant
+                                same_seq(it.seq(), attrs@), attrs@ == attrs_of(*node), //@w @C20 #do_matches_loop_invariant
+                                forall|n: Handle| #[trigger] m(comps@.skip(1), 0, n) == m(comps@, 1, n), //@w @C20 #do_matches_loop_invariant
+                                forall|i: int, j: int| 0 <= i < it.index@ && local_name(#[trigger] attrs@[i].name) == "class"@ && 0 <= j < ws_tokens(tendril_str(attrs@[i].value)).len() ==> #[trigger] ws_tokens(tendril_str(attrs@[i].value))[j] != class@, //@w @C20 #do_matches_loop_invariant
                         {
                             if local_is(&attr.name, "class") {
                                 let toks_v = split_ws(&attr.value);
@@ -304,12 +304,12 @@ impl Selector {
                                 assert(*attr == attrs@[ai]); //@w
                                 for cls in it2: toks_v
                                     invariant //@w
-                                        comps@.len() >= 1, comps@[0] == *comp, *comp == SelectorComponent::Class(*class), node_ok(*node), is_elem(*node), //@w
-                                        attrs@ == attrs_of(*node), 0 <= ai < attrs@.len(), *attr == attrs@[ai], local_name(attrs@[ai].name) == "class"@, //@w
-                                        it2.seq() == toks_v@, toks_v@.len() == toks(*attr).len(), //@w
-                                        forall|j: int| 0 <= j < toks_v@.len() ==> (#[trigger] toks_v@[j])@ == toks(*attr)[j], //@w
-                                        forall|n: Handle| #[trigger] m(comps@.skip(1), 0, n) == m(comps@, 1, n), //@w
-                                        forall|j: int| 0 <= j < it2.index@ ==> #[trigger] toks(*attr)[j] != class@, //@w
+                                        comps@.len() >= 1, comps@[0] == *comp, *comp == SelectorComponent::Class(*class), node_ok(*node), is_elem(*node), //@w @C20 #do_matches_loop_invariant
+                                        attrs@ == attrs_of(*node), 0 <= ai < attrs@.len(), *attr == attrs@[ai], local_name(attrs@[ai].name) == "class"@, //@w @C20 #do_matches_loop_invariant
+                                        it2.seq() == toks_v@, toks_v@.len() == toks(*attr).len(), //@w @C20 #do_matches_loop_invariant
+                                        forall|j: int| 0 <= j < toks_v@.len() ==> (#[trigger] toks_v@[j])@ == toks(*attr)[j], //@w @C20 #do_matches_loop_invariant
+                                        forall|n: Handle| #[trigger] m(comps@.skip(1), 0, n) == m(comps@, 1, n), //@w @C20 #do_matches_loop_invariant
+                                        forall|j: int| 0 <= j < it2.index@ ==> #[trigger] toks(*attr)[j] != class@, //@w @C20 #do_matches_loop_invariant
                                 {
                                     if tok_eq(cls, class) {
                                         assert(toks(attrs_of(*node)[ai])[it2.index@] == class@); //@w
@@ -328,10 +328,10 @@ impl Selector {
                         assert(attrs@ == attrs_of(*node)); //@w
                         for attr in it: attrs.iter()
                             invariant //@w
-                                comps@.len() >= 1, comps@[0] == *comp, *comp == SelectorComponent::Hash(*hash), node_ok(*node), is_elem(*node), //@w
-                                same_seq(it.seq(), attrs@), attrs@ == attrs_of(*node), //@w
-                                forall|n: Handle| #[trigger] m(comps@.skip(1), 0, n) == m(comps@, 1, n), //@w
-                                forall|i: int| 0 <= i < it.index@ ==> !(local_name(#[trigger] attrs@[i].name) == "id"@ && tendril_str(attrs@[i].value) == hash@), //@w
+                                comps@.len() >= 1, comps@[0] == *comp, *comp == SelectorComponent::Hash(*hash), node_ok(*node), is_elem(*node), //@w @C20 #do_matches_loop_invariant
+                                same_seq(it.seq(), attrs@), attrs@ == attrs_of(*node), //@w @C20 #do_matches_loop_invariant
+                                forall|n: Handle| #[trigger] m(comps@.skip(1), 0, n) == m(comps@, 1, n), //@w @C20 #do_matches_loop_invariant
+                                forall|i: int| 0 <= i < it.index@ ==> !(local_name(#[trigger] attrs@[i].name) == "id"@ && tendril_str(attrs@[i].value) == hash@), //@w @C20 #do_matches_loop_invariant
                         {
                             if local_is(&attr.name, "id") && tendril_eq(&attr.value, hash) {
                                 assert(*attr == attrs_of(*node)[it.index@]); //@w
